@@ -11,6 +11,9 @@
 #include <sstream>
 #include <limits>
 #include <memory>
+#include <sys/wait.h>
+#include <unistd.h>
+#include <fcntl.h>
 
 using namespace datasketches;
 namespace vf {
@@ -310,11 +313,41 @@ static uint64_t pick_n(Rng& r, uint32_t k, uint64_t cap) {
   return std::min(n, cap);
 }
 
+static void explore_body(Rng& r, bool deep);
+
 static void explore_case(Rng& r) {
-  const bool T = G().thorough();
   // deep-subnormal cases: weights whose reciprocal overflows; kept in the c < k regime (n <= k), where the closed form
   // for c needs no quotient of two such numbers; no hostile ops / continuations (they could push n above k)
-  const bool deep = r.chance(0.012);   // rare: this regime is a recorded finding (NaN c, SEGV) and every crash costs a shard restart
+  const bool deep = r.chance(0.03);
+  if (deep) {
+    // This regime is a recorded finding (NaN c, undefined NaN->integer conversion, SEGV): probe it in a forked child first so
+    // that an abort does not cost a shard restart; only a case that survives the probe is run (and checked) in this process.
+    Rng probe = r;
+    fflush(nullptr);
+    const pid_t pid = fork();
+    if (pid == 0) {
+      const int nul = ::open("/dev/null", O_WRONLY);
+      if (nul >= 0) { G().out_fd = nul; dup2(nul, 2); }
+      explore_body(probe, true);
+      _exit(0);
+    }
+    int st = 0;
+    if (pid < 0 || waitpid(pid, &st, 0) != pid) { count("deep_subnormal_probe_fork_failed"); return; }
+    count("deep_subnormal_probes");
+    if (!(WIFEXITED(st) && WEXITSTATUS(st) == 0)) {
+      describe("{crashtag:deep-subnormal} probe in forked child");
+      checked();
+      fail("sketch-deep-subnormal|aborts", std::string("forked probe of a deep-subnormal case ") +
+           (WIFSIGNALED(st) ? "killed by signal " + std::to_string(WTERMSIG(st)) : "exited with " + std::to_string(WEXITSTATUS(st))));
+      count("deep_subnormal_probe_aborted");
+      return;
+    }
+  }
+  explore_body(r, deep);
+}
+
+static void explore_body(Rng& r, bool deep) {
+  const bool T = G().thorough();
   g_fam = deep ? "sketch-deep-subnormal" : "sketch";
   g_mfam = deep ? "merge-deep-subnormal" : "merge";
   const size_t nsk = deep ? static_cast<size_t>(r.range(1, 2)) : (r.chance(0.35) ? 1 : static_cast<size_t>(r.range(2, 4)));
